@@ -14,7 +14,7 @@ PID = "C01"
 TRANSLATORS = ["T-jumpi", "T-consts", "T-branchpts", "T-assertbranch", "T-dispatch"]
 
 PLAN_QUICK = [("straight", 14), ("branch", 14), ("memory", 10), ("storage", 10), ("hash", 10), ("log", 6), ("loop", 14), ("call", 12), ("create", 14),
-              ("opgrid", 40), ("callfail", 24), ("symtarget", 12), ("valuecall", 12), ("corr", 16), ("symloop", 12), ("stackops", 12), ("hashcond", 8)]
+              ("opgrid", 32), ("callfail", 22), ("symtarget", 12), ("valuecall", 12), ("corr", 16), ("symloop", 12), ("stackops", 12), ("hashcond", 8)]
 PLAN_THOROUGH = [("straight", 150), ("branch", 200), ("memory", 120), ("storage", 150), ("hash", 150), ("log", 60), ("loop", 80), ("call", 200), ("create", 100),
                  ("opgrid", 600), ("callfail", 300), ("symtarget", 150), ("valuecall", 150), ("corr", 150), ("symloop", 150), ("stackops", 150), ("hashcond", 100)]
 
